@@ -19,14 +19,14 @@ DEPSETS = [('a',), ('b',), ('a', 'b'), ('b:bounds',), ('a', 'b:bounds')]
 N_OPS = 9
 DICTS = [{'a': 1, 'b': 2}, {'a': 1, 'c': 2}, {'a': 1, 'b': 3}, {'b': 2, 'a': 1}]
 OV = ['none', 'decorated override', 'undecorated override', 'grandchild of a decorated override', 'mixin in front of the base',
-      'grandchild of an undecorated override']
+      'grandchild of an undecorated override', 'diamond D(L, R): L inherits, R overrides (decorated)']
 
 
 def prog(ds1: int, init1: bool, ov: int, ds2: int, init2: bool, k: int,
          o1: int, x1: int, o2: int, x2: int, o3: int, x3: int, o4: int, x4: int) -> None:
     ds1 = pick(ds1, 0, 4)
     ds2 = pick(ds2, 0, 4)
-    ov = pick(ov, 0, 5)
+    ov = pick(ov, 0, 6)
     init1, init2 = pickbool(init1), pickbool(init2)
     with untraced():   # class construction is concrete once the choices are realised
         log = []
@@ -70,6 +70,18 @@ def prog(ds1: int, init1: bool, ov: int, ds2: int, init2: bool, k: int,
                 class C(B):
                     pass
                 K = C
+        elif ov == 6:
+            class L(A):
+                pass
+
+            class R(A):
+                @param.depends(*DEPSETS[ds2], watch=True, on_init=init2)
+                def m(self):
+                    log.append('B.m')
+
+            class D(L, R):
+                pass
+            K, eff, auto, tag, einit = D, DEPSETS[ds2], True, 'B.m', init2
         elif ov in (2, 5):
             class B(A):
                 def m(self):
@@ -94,7 +106,7 @@ def prog(ds1: int, init1: bool, ov: int, ds2: int, init2: bool, k: int,
         check('C06.init_assignment_seen', log.count('wc') == 1 and p.c == 1, dict(info0, log=list(log)))
     else:
         check('C06.init_assignment_seen', True)
-    if ov in (1, 2, 3, 5):
+    if ov in (1, 2, 3, 5, 6):
         check('C06.override_replaces', log.count('A.m') == 0, dict(info0, log=list(log)))
     flog = []
     glog = []
@@ -181,7 +193,7 @@ def prog(ds1: int, init1: bool, ov: int, ds2: int, init2: bool, k: int,
         kinds = {('slot' if ':' in d else 'value') for d in hit}
         info = dict(info0, op=o, got=got, exp=exp, changed=sorted(ch), value_and_slot_in_one_batch=(o in (4, 6) and len(kinds) == 2))
         check('C06.once', got == exp, info)
-        if ov in (1, 2, 3, 5):
+        if ov in (1, 2, 3, 5, 6):
             check('C06.override_replaces', log.count('A.m') == 0, dict(info, log=list(log)))
         # the method that names m as a dependency follows m's (effective) dependencies
         if auto and ov in (0, 4):
@@ -192,7 +204,7 @@ def prog(ds1: int, init1: bool, ov: int, ds2: int, init2: bool, k: int,
 
 
 def _ranges(consts):
-    r = dict(ds1=(0, 4), ds2=(0, 4), ov=(0, 5))
+    r = dict(ds1=(0, 4), ds2=(0, 4), ov=(0, 6))
     for n in (1, 2, 3, 4):
         r['o%d' % n] = (0, N_OPS - 1)
         r['x%d' % n] = (0, 10)
@@ -206,15 +218,15 @@ def shards(tier):
     out = []
     q = tier == 'quick'
     k = 2 if q else 3
-    for ov in range(6):
+    for ov in range(7):
         for ds1 in range(5):
-            for ds2 in (range(5) if ov in (1, 3) else (0,)):
-                if q and ov in (1, 3) and ds2 not in (0, 3):
+            for ds2 in (range(5) if ov in (1, 3, 6) else (0,)):
+                if q and ov in (1, 3, 6) and ds2 not in ((0, 3) if ov != 6 else (1,)):
                     continue
                 c = dict(ov=ov, ds1=ds1, ds2=ds2, k=k)
                 for j in range(k + 1, 5):
                     c.update({'o%d' % j: 0, 'x%d' % j: 0})
-                if ov not in (1, 3):
+                if ov not in (1, 3, 6):
                     c.update(init2=False)
                 out.append(dict(name='ov%d_d%d%d' % (ov, ds1, ds2), module='harness.c06', fn='prog', consts=c,
                                 budget_s=40 if q else 600))
